@@ -3,12 +3,13 @@ CONSTANTS Kinds = {"plain"}
           MixedServerSet = {}
           MixedCoreServers = {}
           MixedMethKeys = {"G", "GP"}
+          PlainMethKeys = {"G", "GR"}
           MaxLen = 2
           MaxT = 2
-          ServerSet = {"schemes", "ports", "dup", "absbv", "relbv", "absbvx", "relbvx", "abshx", "abspx", "psschemes"}
+          ServerSet = {"schemes", "ports", "dup", "absbv", "relbv", "absbvx", "relbvx", "abshx", "abspx", "psschemes", "absschv", "schvdup"}
           CoreLen = 2
           CoreT = 1
-          CoreServers = {"schemes", "ports", "dup", "absbv", "relbv", "absbvx", "relbvx", "abshx", "abspx", "psschemes"}
+          CoreServers = {"schemes", "ports", "dup", "absbv", "relbv", "absbvx", "relbvx", "abshx", "abspx", "psschemes", "absschv", "schvdup"}
           Slice = 24
           Seed = 1
           DesignAll = FALSE
